@@ -4,9 +4,9 @@ package main
 // Every contract line starts with "//@". A line "//@ | text" continues the previous clause.
 
 import (
-	"go/types"
 	"bufio"
 	"fmt"
+	"go/types"
 	"os"
 	"regexp"
 	"strings"
@@ -36,46 +36,46 @@ type ModTarget struct {
 }
 
 type FuncContract struct {
-	Key        string // e.g. "(*FileIP).TempPath", "strings.ReplaceAll"
-	Pkg        string // package path the contract file belongs to
-	Extern     bool   // assumed, never verified
-	Iface      bool   // contract of an interface method
-	ParamNames []string
-	ResNames   []string
-	Props      []string
-	Requires   []*Clause
-	Ensures    []*Clause
-	AtCall     []*Clause // assertions before calls of a named callee (Clause.Target = callee name)
-	AssumeCall []*Clause // explicit assumptions made before calls of a named callee (listed as assumptions)
-	AtMakeChan []*Clause // definitional assumptions about a freshly made channel ($ch)
-	AtGo       []*Clause // assertions before go statements of a named callee
-	AtSend     []*Clause // assertions before every channel send in the function
-	Assumes    []*Clause // assumed at call sites, not checked against the body (listed as assumptions)
-	Invariants []*Clause
-	Steps      []*Clause // relation between one loop-head state (prev(x)) and the next
-	Effects    []*Clause // crash invariants
-	OnSpawn    []*Clause // ensures assumed by the spawner at `go f()`
-	Modifies   []string
-	GhostSets  []GhostSet // ghost assignments executed at every return (before the postconditions are checked)
-	Mutates    []string // slice parameters whose backing array the callee changes in place (externs only)
-	SpawnMods  []string
-	NoReturn   bool
-	Determ     string // "structural" (checked by scan) or "by-contract <reason>" (trusted) or ""
-	DetermProps []string
-	Pure       bool
-	Bounded    string
-	Trusted    bool // body not verified although it exists (reason required)
-	TrustedWhy string
-	TrustedFrame bool // modifies clause assumed, body otherwise verified
-	Line       int
-	File       string
-	Replay     []string // replay template lines
-	ReplayChecks []*Clause // oracles evaluated on the real code during a replay only
-	ReplayInputs []*ReplayInput
-	AtReturn []*Clause // obligations at returns over local variables
+	Key           string // e.g. "(*FileIP).TempPath", "strings.ReplaceAll"
+	Pkg           string // package path the contract file belongs to
+	Extern        bool   // assumed, never verified
+	Iface         bool   // contract of an interface method
+	ParamNames    []string
+	ResNames      []string
+	Props         []string
+	Requires      []*Clause
+	Ensures       []*Clause
+	AtCall        []*Clause // assertions before calls of a named callee (Clause.Target = callee name)
+	AssumeCall    []*Clause // explicit assumptions made before calls of a named callee (listed as assumptions)
+	AtMakeChan    []*Clause // definitional assumptions about a freshly made channel ($ch)
+	AtGo          []*Clause // assertions before go statements of a named callee
+	AtSend        []*Clause // assertions before every channel send in the function
+	Assumes       []*Clause // assumed at call sites, not checked against the body (listed as assumptions)
+	Invariants    []*Clause
+	Steps         []*Clause // relation between one loop-head state (prev(x)) and the next
+	Effects       []*Clause // crash invariants
+	OnSpawn       []*Clause // ensures assumed by the spawner at `go f()`
+	Modifies      []string
+	GhostSets     []GhostSet // ghost assignments executed at every return (before the postconditions are checked)
+	Mutates       []string   // slice parameters whose backing array the callee changes in place (externs only)
+	SpawnMods     []string
+	NoReturn      bool
+	Determ        string // "structural" (checked by scan) or "by-contract <reason>" (trusted) or ""
+	DetermProps   []string
+	Pure          bool
+	Bounded       string
+	Trusted       bool // body not verified although it exists (reason required)
+	TrustedWhy    string
+	TrustedFrame  bool // modifies clause assumed, body otherwise verified
+	Line          int
+	File          string
+	Replay        []string  // replay template lines
+	ReplayChecks  []*Clause // oracles evaluated on the real code during a replay only
+	ReplayInputs  []*ReplayInput
+	AtReturn      []*Clause // obligations at returns over local variables
 	ReplayAssumes []Expr
-	Used       bool
-	ifaceRecv  types.Type
+	Used          bool
+	ifaceRecv     types.Type
 }
 
 type GhostSet struct {
@@ -133,7 +133,7 @@ type TypeShape struct {
 
 type ContractSet struct {
 	TypeShapes []*TypeShape
-	ChanInvs []*ChanInv
+	ChanInvs   []*ChanInv
 	Funcs      map[string]*FuncContract // key: pkgpath + "::" + Key  (externs/ifaces: "::" + Key)
 	GhostVars  map[string]*GhostVar
 	GhostFuncs map[string]*GhostFunc
